@@ -977,6 +977,14 @@ def errors(source, model, wcshelper):
     else:
         source.err_int_flux = abs(source.int_flux * np.sqrt(sqerr))
 
+    # errors that cannot be converted to sky coordinates (e.g. a huge pixel
+    # error from an ill-conditioned fit puts the offset position off the sky)
+    # are unknown, not NaN
+    for attr in ['err_ra', 'err_dec', 'err_a', 'err_b', 'err_pa',
+                 'err_int_flux']:
+        if not np.isfinite(getattr(source, attr)):
+            setattr(source, attr, ERR_MASK)
+
     return source
 
 
